@@ -362,3 +362,6 @@ Definition no_visor_magic (f : list Z) : Prop :=
   forall off, list_eqb (slice (rd f off BLOCK) Gen.VmTar.vmtar_magic_lo
                               (Gen.VmTar.vmtar_magic_hi - Gen.VmTar.vmtar_magic_lo))
                        Gen.VmTar.vmtar_magic = false.
+
+(* placeholder printed by the correspondence when the standard-reader run is not evaluated for a case *)
+Definition skip_run := if true then Unmod else run true [].
